@@ -136,16 +136,20 @@ func GenDAG(t *rapid.T, epoch uint32, ids []idx.ValidatorID, weights []pos.Weigh
 
 	// forkers
 	isForker := make([]bool, n)
+	forkRate := make([]int, n)
 	if p.Forks != NoForks && rapid.IntRange(0, 3).Draw(t, "forksOn") != 0 {
+		forkerPct := rapid.SampledFrom([]int{15, 30, 30, 50}).Draw(t, "forkerPct")
 		var fw uint64
+		minority := p.Forks == MinorityFork || rapid.IntRange(0, 2).Draw(t, "keepMinority") != 0
 		for v := 0; v < n; v++ {
-			if !rapid.Bool().Draw(t, "forker") {
+			if rapid.IntRange(0, 99).Draw(t, "forker") >= forkerPct {
 				continue
 			}
-			if p.Forks == MinorityFork && 3*(fw+ref.Weights[v]) >= ref.Total {
+			if minority && 3*(fw+ref.Weights[v]) >= ref.Total {
 				continue
 			}
 			isForker[v] = true
+			forkRate[v] = rapid.SampledFrom([]int{2, 4, 8, 12}).Draw(t, "forkRate")
 			fw += ref.Weights[v]
 			info.Forkers = append(info.Forkers, v)
 		}
@@ -238,10 +242,10 @@ func GenDAG(t *rapid.T, epoch uint32, ids []idx.ValidatorID, weights []pos.Weigh
 		if len(own) > 0 {
 			sp = own[len(own)-1]
 			if isForker[creator] {
-				switch rapid.IntRange(0, 9).Draw(t, "forkKind") {
-				case 0, 1, 2:
+				k := rapid.IntRange(0, 19).Draw(t, "forkKind")
+				if k < forkRate[creator] {
 					sp = own[rapid.IntRange(0, len(own)-1).Draw(t, "forkFrom")]
-				case 3:
+				} else if k == 19 && forkRate[creator] >= 4 {
 					sp = -1
 				}
 			}
